@@ -314,7 +314,7 @@ package schema
 //@   props C01 C13
 //@   requires k.index != nil ==> (forall q indexKey :: dom(k.index, q) ==> 0 <= k.index[q] && k.index[q] < len(k.Data) && k.Data[k.index[q]].Key == q.Key && k.Data[k.index[q]].IsShortcut == q.IsShortcut)
 //@   nopanic
-//@   ensures forall q indexKey :: q.Key == key && q.IsShortcut == isShortcut ==> result1 == dom(k.index, q)
+//@   ensures forall q indexKey :: q.Key == key && q.IsShortcut == isShortcut ==> result1 == dom(k.index, q) && (result1 ==> result0 == k.Data[k.index[q]])
 //@   ensures result1 ==> result0.Key == key && result0.IsShortcut == isShortcut
 
 //@ func (ObjectNodeKeys).Find(i)
@@ -322,3 +322,17 @@ package schema
 //@   requires i >= 0
 //@   nopanic
 //@   ensures result1 == (i < len(k.Data)) && (result1 ==> result0 == k.Data[i])
+
+// C01/C13: a child is found by the DECODED spelling of the key (or by the raw
+// text of a key shortcut), never by the raw quoted text
+//@ func (ObjectNode).Child(key, isShortcut)
+//@   props C01 C13
+//@   requires n.keys != nil && keysWF(n.keys) && (forall j :: 0 <= j && j < len(n.keys.Data) ==> n.keys.Data[j].Index < len(n.children))
+//@   nopanic
+//@   ensures forall q indexKey :: q.Key == key && q.IsShortcut == isShortcut ==> result1 == dom(n.keys.index, q) && (result1 ==> result0 == n.children[n.keys.index[q]])
+
+//@ func (ObjectNode).ChildByRawKey(rawKey)
+//@   props C01 C13
+//@   requires n.keys != nil && keysWF(n.keys) && (forall j :: 0 <= j && j < len(n.keys.Data) ==> n.keys.Data[j].Index < len(n.children)) && len(rawKey) <= 1000000000000
+//@   nopanic
+//@   ensures !userTypeName(rawKey) ==> (exists s string :: spellsDecoded(s, rawKey) && (forall q indexKey :: q.Key == s && !q.IsShortcut ==> result1 == dom(n.keys.index, q) && (result1 ==> result0 == n.children[n.keys.index[q]])))
